@@ -34,6 +34,9 @@ claimed = {
  "C12": ("AST/SSA rules: guard structure of the token append (SPACE/COMMENT dropped), CRLF normalisation before the loop, forward value flow of Token.Row/Column to error constructors only, inter-procedural 'next token decision' search after every required NEWLINE, overlap of probe first-character sets with the punctuation table vs. conditioning on the previous token",
          "Necessary structural conditions of layout independence per site. Acceptance/byte equality over all re-layouts is behaviour and not decided.",
          "The next-decision search is bounded (3 call levels); sites are keyed by function and ordinal.", "§3 C12"),
+ "C19": ("SSA rules on package main: who-may-write inventory of file-mutating calls over all product packages, backward value-flow of the written data and path, dominance of the write by the Transpile error check, error-result discipline of every call in main, provenance of the converter handed to Transpile (constructor call vs package-level state), remainder check of the option pair loop",
+         "Structural necessary conditions of the command's contract for all option lists and inputs. File-system behaviour itself is not decided.",
+         "Trusts go/ssa and the list of file-mutating standard-library calls.", "§3 C19"),
 }
 na_reason = {
  "C15": "value-level agreement of a TypeShell library executed by a shell with Go's strings package over all arguments; no clause of it is visible in the shape of the Go sources or of std/strings.tsh; static analysis (this task's technique family) cannot address it",
